@@ -81,8 +81,10 @@ def inv_lastpos(st, P):
 def inv_pos(st, P):
     """I-pos / I-E: outside an episode the printer is where the filter believes it is."""
     pos = st.position
+    # (in relative extrusion mode the value of the printer's E register is irrelevant: every E word is an offset)
     return Implies(Not(st.excluding), And(eq(P.x, val(pos.X_AXIS.current)), eq(P.y, val(pos.Y_AXIS.current)),
-                                          eq(P.z, val(pos.Z_AXIS.current)), eq(P.e, val(pos.E_AXIS.current))))
+                                          eq(P.z, val(pos.Z_AXIS.current)),
+                                          Implies(pos.E_AXIS.absoluteMode, eq(P.e, val(pos.E_AXIS.current)))))
 
 
 def inv_all(st, P):
@@ -118,7 +120,6 @@ def _(c):
     c.pre(pre)
     c.requires("retraction-type-invariant", lambda f: retraction_ok(f.self))
     c.requires("unit-nonzero", lambda f: Not(eq(f.a.position.E_AXIS.unitMultiplier, 0)))
-    c.requires("absolute-extrusion", lambda f: f.a.position.E_AXIS.absoluteMode)   # domain of C04
     c.modifies()       # semantic frame: the tracked position is restored on exit
 
     def effect(f):
